@@ -461,8 +461,8 @@ def _b_list(interp, args, kwargs, state, node):
         return interp.alloc(state, _i().ListObj(seq,
                                                 origin=interp.site(node)))
     return interp.alloc(state, _i().ListObj(
-        (), more=True, origin=interp.site(node))) if False else \
-        Sym('list', _t(args[0]))
+        (), more=True, origin=interp.site(node),
+        source=Sym('list', _t(args[0]))))
 
 
 def _b_tuple(interp, args, kwargs, state, node):
@@ -973,6 +973,12 @@ def call_container_method(interp, ref, name, args, kwargs, state, node):
             return None
         if name == 'copy':
             return interp.alloc(state, ListObj(o.items, o.more))
+        if name == 'sort' and o.source is not None and not o.items:
+            kw = tuple(sorted((k, _t(v)) for k, v in kwargs.items()))
+            src = o.source.args[0] if o.source.op == 'list' else o.source
+            state.store[ref.id] = ListObj((), True, o.shared, o.origin,
+                                          Sym('sorted', src, kw))
+            return None
         if name == 'pop' or name == 'insert' or name == 'remove' or \
                 name == 'sort' or name == 'reverse' or name == 'clear':
             state.store[ref.id] = ListObj((), True, o.shared, o.origin)
